@@ -125,6 +125,8 @@ pub fn score_facts(model: &ModelData, chars: &[char], scores: &[i64]) -> ScoreFa
 /// Static facts about a model's pattern set.
 #[derive(Clone, Debug, Default)]
 pub struct ModelFacts {
+    /// two character entries of different length carry the same weight values (modulo trailing zeros)
+    pub value_equal_weights: bool,
     pub suffix_related: bool,
     pub equal_entries: bool,
     pub long_weights: bool,
@@ -133,6 +135,23 @@ pub struct ModelFacts {
 
 pub fn model_facts(model: &ModelData) -> ModelFacts {
     let mut f = ModelFacts::default();
+    {
+        let trim = |w: &Vec<i32>| {
+            let mut v = w.clone();
+            while v.last() == Some(&0) {
+                v.pop();
+            }
+            v
+        };
+        let mut seen: Vec<(usize, Vec<i32>)> = vec![];
+        for (len, w) in model.char_ngram_model.iter().map(|d| (d.ngram.chars().count(), &d.weights)).chain(model.dict_model.iter().map(|d| (d.word.chars().count() + 1000, &d.weights))) {
+            let t = trim(w);
+            if !t.is_empty() && seen.iter().any(|(l, x)| *l != len && *x == t) {
+                f.value_equal_weights = true;
+            }
+            seen.push((len, t));
+        }
+    }
     let mut pats: Vec<Vec<char>> = vec![];
     for d in &model.char_ngram_model {
         pats.push(d.ngram.chars().collect());
